@@ -21,6 +21,10 @@ class _Observable(_Observable, _STIXBase21):
                 raise ValueError(
                     "%s content is nested too deeply" % self.__class__.__name__,
                 ) from None
+            except OverflowError:
+                raise ValueError(
+                    "%s content has a number which is too large" % self.__class__.__name__,
+                ) from None
 
             # Spec says fall back to UUIDv4 if no contributing properties were
             # given.  That's what already happened (the following is actually
